@@ -1,1 +1,250 @@
-/-! Property theorems for C14 (stub: none yet). -/
+import TxdbusModel.Proofs.Bus.RouteMain
+/-!
+# C14 - the built-in bus delivers each message to the right peer with the true sender
+
+Property theorems about the code model `TxdbusModel/Bus/Route.lean` (the routing part of
+`txdbus/bus.py` as repaired: F21 unicast messages are not routed through the match rules, F22
+AddMatch records the rule id on the connection).  All theorems quantify over **every** history of
+events (connects, messages with arbitrary content from any connection, disconnects, any name-table
+effects - no bound on the number of connections, names, rules or steps) and over **every** rule
+predicate `cfg.holds`; the state they speak about is the one the model reaches from the empty bus,
+`final cfg State.init h`.
+
+Vocabulary (Bus/RouteSpec.lean): `allocated` - the (connection, name) pairs handed out, in order;
+`nameOf s j` - unique name of connection `j`; `Live s j` - `j` is connected; `Owns s j d` - `j` owns
+destination name `d` (unique name of a live connection / head of the name table for a well-known
+name); `Addressed m d` - `m` has destination `d`, non-empty and not the bus; `withSender`,
+`eraseSender`; `arrivedFrom`, `sentTo`; `heldAfter h` - who holds which rule after history `h`,
+computed from the history alone.
+-/
+namespace Txdbus.BusRoute
+
+variable {ρ : Type}
+
+/-! ## 1. unique names -/
+
+/-- Every allocated name is `':1.n'`, and the n-th allocation gets `n` (1, 2, 3, ... strictly
+increasing by one), whatever else happened in between (disconnects included). -/
+theorem unique_names_fresh (cfg : Cfg ρ) (hr : cfg.Repaired) (h : List (Event ρ)) :
+    (allocated (exec cfg State.init h)).map (·.2) =
+      (List.range' 1 (allocated (exec cfg State.init h)).length).map uniqueNameOf :=
+  allocated_from hr Inv.init h
+
+/-- No name is ever handed out twice; two connections - connected or gone - never have the same
+name; a connection's name is the one it was allocated and it keeps it for ever. -/
+theorem unique_names_never_reused (cfg : Cfg ρ) (hr : cfg.Repaired) (h : List (Event ρ)) :
+    ((allocated (exec cfg State.init h)).map (·.2)).Nodup ∧
+    (∀ j j' n, nameOf (final cfg State.init h) j = some n → nameOf (final cfg State.init h) j' = some n → j = j') ∧
+    (∀ j n, nameOf (final cfg State.init h) j = some n ↔ (j, n) ∈ allocated (exec cfg State.init h)) ∧
+    (∀ h' j n, nameOf (final cfg State.init h) j = some n → nameOf (final cfg State.init (h ++ h')) j = some n) := by
+  have inv := final_inv hr (Inv.init (ρ := ρ)) h
+  refine ⟨?_, inv.names_inj, ?_, ?_⟩
+  · rw [unique_names_fresh cfg hr h]
+    exact List.Pairwise.map _ (fun a b hab e => hab (uniqueNameOf_injective e)) List.nodup_range'
+  · intro j n
+    rw [name_iff_allocated hr Inv.init h j n]
+    simp [nameOf, State.init]
+  · intro h' j n hn
+    rw [final_append, name_iff_allocated hr inv h' j n]
+    exact Or.inl hn
+
+/-! ## 2. unicast -/
+
+/-- A message with a destination other than the bus, sent by a live connection `i`: the step's
+deliveries are exactly one - to the connection owning the destination at that step, carrying the
+message with the sender replaced by `i`'s unique name - or none at all when nobody owns the name.
+Nothing else is delivered to anybody in that step. -/
+theorem unicast_exact (cfg : Cfg ρ) (hr : cfg.Repaired) (h : List (Event ρ)) (i : ConnId) (m : Msg)
+    (op : BusOp ρ) (d : Name) (ha : Addressed m d) (hl : Live (final cfg State.init h) i) :
+    let r := step cfg (final cfg State.init h) (.msg i m op)
+    (∃ n, nameOf r.1 i = some n) ∧
+    (∀ j, Owns r.1 j d → r.2.deliveries = [⟨j, .fwd i (withSender m (nameOf r.1 i))⟩]) ∧
+    ((∀ j, ¬ Owns r.1 j d) → r.2.deliveries = []) :=
+  unicast_exact_from hr (final_inv hr Inv.init h) i m op d ha hl
+
+/-- At most one connection owns a destination name (so "the owner" above is well defined); the
+owner of a unique name is connected. -/
+theorem owner_unique (cfg : Cfg ρ) (hr : cfg.Repaired) (h : List (Event ρ)) (d : Name) (j j' : ConnId)
+    (hj : Owns (final cfg State.init h) j d) (hj' : Owns (final cfg State.init h) j' d) : j = j' :=
+  owns_unique (final_inv hr Inv.init h) d j j' hj hj'
+
+/-! ## 3. the sender is the true one, everything else is unchanged -/
+
+/-- Every forwarded or routed message that any connection receives in any step is the message of
+that step's event, sent by the connection `o` the delivery is attributed to, with its sender field
+replaced - whatever it contained - by the unique name that was allocated to `o`; no other field
+differs (`withSender` changes the sender only). -/
+theorem sender_is_true (cfg : Cfg ρ) (hr : cfg.Repaired) (h : List (Event ρ)) (e : Event ρ) (dl : Delivery)
+    (hdl : dl ∈ (step cfg (final cfg State.init h) e).2.deliveries) (o : ConnId) (m' : Msg)
+    (hw : dl.what = .fwd o m') :
+    ∃ m op n, e = .msg o m op ∧ m' = withSender m (some n) ∧
+      (o, n) ∈ allocated (exec cfg State.init (h ++ [e])) := by
+  obtain ⟨m, op, n, he, hn, hm⟩ := sender_is_true_from hr (final_inv hr Inv.init h) e dl hdl o m' hw
+  refine ⟨m, op, n, he, hm, ?_⟩
+  have := (name_iff_allocated hr (Inv.init (ρ := ρ)) (h ++ [e]) o n).mp (by
+    rw [final_append]; exact hn)
+  rcases this with h0 | h1
+  · simp [nameOf, State.init] at h0
+  · exact h1
+
+/-! ## 4. order -/
+
+/-- For every connection `i` and destination `d`: the forwarded messages from `i` for `d`, in the
+order in which they were delivered over the whole history, are - up to the sender field - a
+subsequence of the messages `i` sent to `d`, in the order sent (nothing is reordered, nothing
+is duplicated). -/
+theorem order_preserved (cfg : Cfg ρ) (hr : cfg.Repaired) (h : List (Event ρ)) (i : ConnId) (d : Name)
+    (hd : d ≠ []) :
+    List.Sublist ((arrivedFrom i d (exec cfg State.init h)).map eraseSender)
+      ((sentTo i d h).map eraseSender) :=
+  arrived_sublist_sent hr Inv.init h i d hd
+
+/-! ## 5. messages addressed to the bus -/
+
+/-- A message addressed to the bus itself is forwarded to nobody.  If it is a method call the bus
+answers it - exactly one reply, to the caller, carrying the call's serial - when it is the
+connection's first Hello, when the dispatch answers regardless of flags, or when a reply is
+expected; otherwise (no-reply flag) there is no reply. -/
+theorem bus_calls_answered_not_forwarded (cfg : Cfg ρ) (hr : cfg.Repaired) (h : List (Event ρ)) (i : ConnId)
+    (m : Msg) (op : BusOp ρ) (hd : m.dest = some busName) (hl : Live (final cfg State.init h) i) :
+    let s := final cfg State.init h
+    let r := step cfg s (.msg i m op)
+    (∀ dl ∈ r.2.deliveries, dl.what.isFwd = false) ∧
+    r.2.deliveries.filterMap replyOf = (if answered (helloCalled s i) m op then [(i, m.serial)] else []) :=
+  bus_calls_from hr (final_inv hr Inv.init h) i m op hd hl
+
+/-! ## 6. broadcast -/
+
+/-- The router's table is, after every history, exactly the rules of the AddMatch calls processed so
+far minus those of connections that disconnected (`heldAfter`, a function of the history alone), and
+every holder is connected. -/
+theorem rules_held_by_connected_clients (cfg : Cfg ρ) (hr : cfg.Repaired) (h : List (Event ρ))
+    (wf : ∀ e ∈ h, e.wf) :
+    heldBy (final cfg State.init h) = heldAfter h ∧
+    ∀ j r, (j, r) ∈ heldAfter h → Live (final cfg State.init h) j := by
+  have sim := Sim.run hr Inv.init Sim.init h wf
+  have e : heldBy (final cfg State.init h) = heldAfter h := sim.2.symm
+  refine ⟨e, fun j r hjr => ?_⟩
+  rw [← e] at hjr
+  exact held_live (final_inv hr Inv.init h) j r hjr
+
+/-- A message without destination (a broadcast signal) sent by a live connection `i`: the deliveries
+of the step are one copy per held rule that matches the message (as delivered, i.e. with the true
+sender), to the rule's holder, in registration order; hence connection `j` receives the signal iff
+it is connected and holds a matching rule. -/
+theorem broadcast_exact (cfg : Cfg ρ) (hr : cfg.Repaired) (h : List (Event ρ)) (wf : ∀ e ∈ h, e.wf)
+    (i : ConnId) (m : Msg) (op : BusOp ρ) (hd : truthy m.dest = false) (hl : Live (final cfg State.init h) i) :
+    let r := step cfg (final cfg State.init h) (.msg i m op)
+    let m' := withSender m (nameOf r.1 i)
+    (∃ n, nameOf r.1 i = some n) ∧
+    r.2.deliveries = ((heldAfter h).filter (fun e => cfg.holds e.2 m')).map (fun e => ⟨e.1, .fwd i m'⟩) ∧
+    (∀ j, (∃ dl ∈ r.2.deliveries, dl.to = j) ↔ (Live r.1 j ∧ ∃ p, (j, p) ∈ heldAfter h ∧ cfg.holds p m' = true)) := by
+  intro r m'
+  have inv := final_inv hr (Inv.init (ρ := ρ)) h
+  obtain ⟨hheld, hlive⟩ := rules_held_by_connected_clients cfg hr h wf
+  obtain ⟨hn, hdl, hcn⟩ := broadcast_exact_from hr inv i m op hd hl
+  rw [hheld] at hdl
+  refine ⟨hn, hdl, fun j => ?_⟩
+  show (∃ dl ∈ r.2.deliveries, dl.to = j) ↔ _
+  rw [show r.2.deliveries = _ from hdl]
+  constructor
+  · rintro ⟨dl, hmem, hto⟩
+    simp only [List.mem_map, List.mem_filter] at hmem
+    obtain ⟨⟨j', p⟩, ⟨hin, hholds⟩, rfl⟩ := hmem
+    simp only at hto
+    subst hto
+    refine ⟨?_, p, hin, hholds⟩
+    show connected r.1 j' = true
+    rw [show connected r.1 j' = connected (final cfg State.init h) j' from hcn j']
+    exact hlive j' p hin
+  · rintro ⟨_, p, hin, hholds⟩
+    exact ⟨⟨j, .fwd i m'⟩, by
+      simp only [List.mem_map, List.mem_filter]
+      exact ⟨(j, p), ⟨hin, hholds⟩, rfl⟩, rfl⟩
+
+/-! ## the hypotheses are satisfiable, the statements are not vacuous -/
+
+section examples
+private def nm (s : String) : Name := s.toList
+
+private def helloMsg (serial : Nat) : Msg :=
+  { mtype := .call, serial := serial, noReply := false, noAutoStart := false, path := some busPath,
+    iface := some busName, member := some helloMember, errorName := none, replySerial := none,
+    dest := some busName, sender := none, body := nm "nobody" }
+
+private def addMatchMsg (serial : Nat) : Msg :=
+  { helloMsg serial with member := some addMatchMember, body := nm "s:rule" }
+
+private def callTo (serial : Nat) (dest : Option Name) (forged : Option Name) : Msg :=
+  { mtype := .call, serial := serial, noReply := false, noAutoStart := false, path := some (nm "/x"),
+    iface := some (nm "org.ex.I"), member := some (nm "Foo"), errorName := none, replySerial := none,
+    dest := dest, sender := forged, body := nm "v:tok" }
+
+private def sigFrom (serial : Nat) : Msg :=
+  { callTo serial none (some (nm ":1.7")) with mtype := .sig }
+
+private def ruleI : SimpleRule := { iface := some (nm "org.ex.I") }
+
+/-- three clients say Hello; client 2 adds a rule on interface org.ex.I -/
+private def setup : List (Event SimpleRule) :=
+  [.connect, .connect, .connect,
+   .msg 0 (helloMsg 1) (.exec []), .msg 1 (helloMsg 2) (.exec []), .msg 2 (helloMsg 3) (.exec []),
+   .msg 2 (addMatchMsg 4) (.addMatch ruleI)]
+
+/-- Names :1.1, :1.2, :1.3 in this order. -/
+example : (allocated (exec repaired State.init setup)).map (·.2) = [nm ":1.1", nm ":1.2", nm ":1.3"] := by decide
+
+/-- A call from client 0 to :1.2 with a forged sender reaches client 1 only, as coming from :1.1. -/
+example : (step repaired (final repaired State.init setup) (.msg 0 (callTo 5 (some (nm ":1.2")) (some (nm ":1.3"))) (.exec []))).2.deliveries
+    = [⟨1, .fwd 0 (callTo 5 (some (nm ":1.2")) (some (nm ":1.1")))⟩] := by decide
+
+example : Addressed (callTo 5 (some (nm ":1.2")) none) (nm ":1.2") := by unfold Addressed; decide
+example : Live (final repaired State.init setup) 0 := by unfold Live; decide
+example : Owns (final repaired State.init setup) 1 (nm ":1.2") := by
+  unfold Owns Live; decide
+example : ∀ e ∈ setup, e.wf := by simp [setup, Event.wf, addMatchMsg]
+example : repaired.Repaired := ⟨rfl, rfl⟩
+
+/-- A broadcast from client 0 reaches the rule holder (client 2) with the true sender. -/
+example : (step repaired (final repaired State.init setup) (.msg 0 (sigFrom 6) (.exec []))).2.deliveries
+    = [⟨2, .fwd 0 { sigFrom 6 with sender := some (nm ":1.1") }⟩] := by decide
+
+/-- After client 2 disconnects nobody holds a rule. -/
+example : heldAfter (setup ++ [.disconnect 2 []]) = [] := by decide
+example : heldAfter setup = [(2, ruleI)] := by decide
+
+/-! ## the code before the repairs violates the property (these are the replays) -/
+
+/-- F21: before the repair, the call from client 0 to :1.2 ALSO reaches client 2, which only holds a
+match rule (`unicast_exact` fails for `original`). -/
+theorem original_unicast_reaches_rule_holder :
+    (step original (final original State.init setup)
+        (.msg 0 (callTo 5 (some (nm ":1.2")) none) (.exec []))).2.deliveries
+      = [⟨1, .fwd 0 (callTo 5 (some (nm ":1.2")) (some (nm ":1.1")))⟩,
+         ⟨2, .fwd 0 (callTo 5 (some (nm ":1.2")) (some (nm ":1.1")))⟩] := by decide
+
+/-- F22: before the repair, the rule of client 2 survives its disconnect and the next broadcast is
+written to the dead connection (`rules_held_by_connected_clients` / `broadcast_exact` fail for
+`original`; with `repaired` the same history delivers nothing). -/
+theorem original_rule_outlives_its_client :
+    (step original (final original State.init (setup ++ [.disconnect 2 []]))
+        (.msg 0 (sigFrom 6) (.exec []))).2.deliveries
+      = [⟨2, .fwd 0 { sigFrom 6 with sender := some (nm ":1.1") }⟩]
+    ∧ (step repaired (final repaired State.init (setup ++ [.disconnect 2 []]))
+        (.msg 0 (sigFrom 6) (.exec []))).2.deliveries = [] := by decide
+
+end examples
+
+end Txdbus.BusRoute
+
+#print axioms Txdbus.BusRoute.unique_names_fresh
+#print axioms Txdbus.BusRoute.unique_names_never_reused
+#print axioms Txdbus.BusRoute.unicast_exact
+#print axioms Txdbus.BusRoute.owner_unique
+#print axioms Txdbus.BusRoute.sender_is_true
+#print axioms Txdbus.BusRoute.order_preserved
+#print axioms Txdbus.BusRoute.bus_calls_answered_not_forwarded
+#print axioms Txdbus.BusRoute.rules_held_by_connected_clients
+#print axioms Txdbus.BusRoute.broadcast_exact
+#print axioms Txdbus.BusRoute.original_unicast_reaches_rule_holder
+#print axioms Txdbus.BusRoute.original_rule_outlives_its_client
